@@ -297,7 +297,7 @@ class QuotedString(String):
                 marker = match.end(0)
             else:
                 end = match.end(0)
-                quoted = buf[start:end + 1]
+                quoted = buf[start:end]
                 return cls(bytes(unquoted), bytes(quoted)), buf[end:]
         raise NotParseable(buf)
 
